@@ -547,6 +547,8 @@ impl Property for C07 {
             3 => one(start(vec![(5, OpKind::Sub(0)), (1, OpKind::Unsub(0)), (1, OpKind::Pub1)])),
             4 => one(ack(deco_ok())),
             12 => one(in_publish((0u8..3).boxed(), Just(0u16).boxed(), target_any())),
+            // QoS 1 re-deliveries (same identifier, DUP set or not) are messages of their own
+            2 => one(in_publish(Just(1u8).boxed(), (1u16..3).boxed(), target_any())),
             1 => Just(vec![Ev::In(Inbound::Pubrel { pid: 1, known: true })]),
             3 => one(sel().prop_map(|sel| Ev::MakeStream { sel })),
             4 => one(sel().prop_map(|sel| Ev::PollStream { sel })),
@@ -1422,6 +1424,9 @@ fn mixed_history(tier: Tier) -> BoxedStrategy<Vec<Ev>> {
         6 => start(vec![(1, OpKind::Pub0), (3, OpKind::Pub1), (3, OpKind::Pub2), (3, OpKind::Sub(0)), (1, OpKind::Unsub(0)), (1, OpKind::Ping)]),
         6 => ack(deco()),
         4 => in_publish((0u8..3).boxed(), Just(0u16).boxed(), target_any()),
+        // QoS 1 messages from a pool of two identifiers, DUP set or not: a re-delivery of a QoS 1
+        // message is one more message
+        2 => in_publish(Just(1u8).boxed(), (1u16..3).boxed(), target_any()),
         1 => (1u16..4, any::<bool>()).prop_map(|(pid, known)| Ev::In(Inbound::Pubrel { pid, known })),
         3 => stream_events(),
         1 => Just(Ev::CloneHandle),
@@ -1583,6 +1588,32 @@ impl Property for C14 {
             o.class("drop-with-long-stream-backlog");
             if let Some(mut f) = failure_for(&out, &["C14/", "C07/stream/message-lost"]) {
                 f.msg = format!("stream with {n} buffered messages when the context was dropped: {}", f.msg);
+                o.fail = Some(f);
+            }
+        }
+        // a consumer that keeps up, a QoS 1 message re-delivered (DUP, same identifier) as the last
+        // thing its stream sees before the drop
+        for dup_again in [1usize, 2] {
+            if o.fail.is_some() {
+                break;
+            }
+            let mut events = sub_ready_events();
+            events.push(Ev::In(Inbound::Publish { qos: 1, dup: false, retain: false, pid: 7, target: Target::Sub(0), payload_len: 1, props: 0 }));
+            events.push(Ev::Settle);
+            events.push(Ev::PollStream { sel: 0 });
+            events.push(Ev::PollStream { sel: 0 });
+            for _ in 0..dup_again {
+                events.push(Ev::In(Inbound::Publish { qos: 1, dup: true, retain: false, pid: 7, target: Target::Sub(0), payload_len: 1, props: 0 }));
+                events.push(Ev::Settle);
+                events.push(Ev::PollStream { sel: 0 });
+                events.push(Ev::PollStream { sel: 0 });
+            }
+            events.push(Ev::DropCtx);
+            let scn = Scenario { receive_max: None, max_packet_size: None, id_offset: 0, prologue: 0, events };
+            let out = run(&scn, &SimCfg { auto_settle: false, ..Default::default() });
+            o.class("drop-after-a-qos1-redelivery");
+            if let Some(mut f) = failure_for(&out, &["C14/", "C07/stream/message-lost"]) {
+                f.msg = format!("QoS 1 message re-delivered {dup_again}x to a stream that keeps up, then the context dropped: {}", f.msg);
                 o.fail = Some(f);
             }
         }
